@@ -374,6 +374,10 @@ pub fn restore(subject: &str, text: &str) -> Result<Result<Box<dyn DynM>, String
 
 /// Float stream generator with regimes: uniform, walk, plateau, zeros, sign flips, spikes, scale jumps, monotone.
 pub struct Gen {
+	/// never generate zero volumes (volume-based sources feeding relative changes divide by them)
+	pub no_zero_volume: bool,
+	/// never repeat a value exactly (a flat window makes correlations / ratios 0/0: undefined)
+	pub no_plateau: bool,
 	pub rng: Rng,
 	scale: f64,
 	cur: f64,
@@ -387,7 +391,7 @@ impl Gen {
 		let scale = *rng.pick(&[1e-3, 0.37, 1.0, 12.5, 100.0, 3e4]);
 		let cur = scale * (0.5 + rng.unit());
 		let shape = rng.below(8);
-		Self { rng, scale, cur, shape, positive }
+		Self { no_zero_volume: false, no_plateau: false, rng, scale, cur, shape, positive }
 	}
 	fn finish(&mut self, mut v: f64) -> f64 {
 		if self.positive {
@@ -426,8 +430,10 @@ impl Gen {
 		let v = match self.shape {
 			0 => s * (u * 2.0 - 0.5),                         // uniform, mostly positive
 			1 => self.cur + s * 0.05 * (u - 0.5),             // random walk
-			2 => self.cur,                                    // plateau
-			3 => if u < 0.5 { 0.0 } else { s * u },           // zeros
+			2 if !self.no_plateau => self.cur,                // plateau
+			2 => self.cur + s * 0.03 * (u - 0.5),
+			3 if !self.no_plateau => if u < 0.5 { 0.0 } else { s * u }, // zeros
+			3 => s * (0.2 + u),
 			4 => -self.cur + s * 0.01 * (u - 0.5),            // sign flips
 			5 => if u < 0.1 { self.cur * 50.0 } else { s * (0.9 + 0.2 * u) }, // spikes
 			6 => self.cur + s * 0.01 * u,                     // monotone up
@@ -450,7 +456,7 @@ impl Gen {
 			_ => (hi0 * (1.0 + 0.03 * self.rng.unit()), lo0 * (1.0 - 0.03 * self.rng.unit())),
 		};
 		let volume = match self.rng.below(8) {
-			0 => 0.0,
+			0 if !self.no_zero_volume => 0.0,
 			1 => 1.0,
 			_ => (self.rng.unit() * 1000.0 + 1.0).floor() * if self.rng.chance(0.3) { 1.37 } else { 1.0 },
 		};
